@@ -3,11 +3,16 @@ from .types import Int, Real, Bool, Str, NoneT, DT, TD, Date, Opt, Ref, List, Di
 from .engine import contract, REG, Contract  # noqa
 
 
-def ghost(name, params, src, opaque=None):
-    """opaque=<type>: uninterpreted outside contracts that `reveal` it (keeps queries small)."""
+def ghost(name, params, src, opaque=None, types=None):
+    """opaque=<type>: uninterpreted outside contracts that `reveal` it (keeps queries small).
+    types: declared parameter types of an opaque ghost (arguments are coerced, so that e.g. a Str and an
+    Opt[Str] argument give the same application)."""
     REG.ghost[name] = (list(params), src)
     if opaque is not None:
         REG.opaque[name] = opaque
+        if types is not None:
+            REG.opaque_types = getattr(REG, "opaque_types", {})
+            REG.opaque_types[name] = list(types)
 
 
 from . import types as _T
